@@ -1,3 +1,4 @@
+mod enc;
 mod fd;
 mod gen;
 mod frames;
@@ -24,6 +25,8 @@ fn main() {
         "truncsweep" => fd::truncsweep(rest),
         "realtrunc" => fd::realtrunc(rest),
         "mkcorpus" => gen::mkcorpus(rest),
+        "encexec" => enc::encexec(rest),
+        "encgraph" => enc::encgraph(rest),
         "decbufrand" => ring::decbufrand(rest),
         other => {
             eprintln!("unknown command {other}");
